@@ -1,7 +1,7 @@
 #!/bin/bash
 # usage: mut_test.sh <patch.diff> <check-id> [extra check args]  — applies a seeded change to the scratch tree /tmp/wk/me
 # (synchronised to /repo HEAD), REBUILDS its library (native replays link it), runs the check against it, restores the tree.
-p=$1; id=$2; shift 2
+p=$(readlink -f "$1"); id=$2; shift 2
 exec 9>/tmp/wk/me.lock; flock 9      # one seeded change at a time in the shared scratch tree
 cd /tmp/wk/me || exit 9
 git checkout -q -- . ; git checkout -q --detach $(git -C /repo rev-parse HEAD)
